@@ -24,7 +24,8 @@ ASSUMPTIONS = ['simulated device implements the firmware param protocol (read/wr
                'are both accepted for it', 'each (misc command, parameter) pair is outstanding at most once']
 REQUIRED = ['mon.writes_checked', 'mon.refused_checked', 'mon.value_replies', 'mon.callback_invocations',
             'mon.misc_replies', 'mon.one_outstanding_pairs', 'mon.precedence_pairs', 'mon.notifications',
-            'mon.multi_outstanding_misc_cases', 'mon.v1_cases', 'mon.state_queries_answered_enoent']
+            'mon.multi_outstanding_misc_cases', 'mon.v1_cases', 'mon.state_queries_answered_enoent',
+            'mon.instant_reply_cases_with_statement_level_preemption']
 DESC_TIMEOUT = 900
 
 FLOATS = [0.0, -0.0, 1.5, -2.25, float('inf'), float('-inf'), float('nan'), 1e-45, 3.4028234663852886e38, 1e39,
@@ -40,7 +41,7 @@ def cases(tier, seed):
         out.append({'seed': seed * 1000003 + i, 'proto': proto, 'nparam': rnd.randint(3, 14),
                     'threads': rnd.randint(1, 4), 'ops': rnd.randint(1, 40 if i % 3 else 12),
                     'maxdelay': rnd.choice((0.0, 0.01, 0.5)), 'sched': rnd.choice(('rtb', 'random', 'random', 'pct')),
-                    'line_p': rnd.choice((0.0, 0.0, 0.0, 0.05)), 'misc_burst': i % 4 == 0})
+                    'line_p': rnd.choice((0.0, 0.0, 0.05, 0.25)), 'misc_burst': i % 4 == 0})
     return out
 
 
@@ -129,7 +130,10 @@ def run(desc, ctx):
         # the firmware answers "no such entry" to the state query of some parameters the table marks persistent
         enoent = {i for i, p in enumerate(prof['param']) if p.get('pers') and (i + desc['seed']) % 2 == 0}
         dev.hooks['persist_err'] = lambda cmd, idx: simcf.ENOENT if (cmd == 4 and idx in enoent) else None
-    spec = simlink.LinkSpec(dev, needs_resending=False, latency=0.001)
+    # with statement-level pre-emption and no reply delay the answer is available the moment the request has been handed
+    # to the link: the dispatcher may process it before the sending thread executes its next statement
+    instant = desc['line_p'] > 0 and desc['maxdelay'] == 0.0
+    spec = simlink.LinkSpec(dev, needs_resending=False, latency=0.0 if instant else 0.001)
     uri = 'sim://c04'
     simlink.SIMS[uri] = spec
     drnd = random.Random(desc['seed'] ^ 0x77)
@@ -247,6 +251,8 @@ def run(desc, ctx):
         return
     if proto < 4:
         ctx.count('mon.v1_cases')
+    if instant:
+        ctx.count('mon.instant_reply_cases_with_statement_level_preemption')
     idfmt = '<H' if v2 else '<B'
     idlen = 2 if v2 else 1
     tx = [t for t in spec.tx[ob['t0_tx']:] if (t[2] >> 4) & 0xF == 2]
